@@ -78,15 +78,29 @@ def _cvc5_check(smt2, timeout_s):
 
 
 def _work(job):
+    """portfolio per obligation: z3 with a short budget, then cvc5, then z3 with the full budget.  (Several obligations are hard for
+    z3's trigger-based instantiation and immediate for cvc5, and vice versa.)"""
     idx, smt2, z3_ms, use_cvc5 = job
     try:
-        st, be, dt, info = _z3_check(smt2, z3_ms)
-        if st == "unknown" and use_cvc5:
+        short = min(4000, z3_ms)
+        st, be, dt, info = _z3_check(smt2, short)
+        total = dt
+        if st != "unknown":
+            return idx, st, be, total, info
+        if use_cvc5:
             st2, be2, dt2, info2 = _cvc5_check(smt2, CVC5_TIMEOUT_S)
+            total += dt2
             if st2 != "unknown":
-                return idx, st2, be2, dt + dt2, info2
-            return idx, "unknown", "z3+cvc5", dt + dt2, "z3: %s; cvc5: %s" % (info, info2)
-        return idx, st, be, dt, info
+                return idx, st2, be2, total, info2
+        else:
+            info2 = "(cvc5 skipped)"
+        if z3_ms > short:
+            st3, be3, dt3, info3 = _z3_check(smt2, z3_ms)
+            total += dt3
+            if st3 != "unknown":
+                return idx, st3, be3, total, info3
+            info = info3
+        return idx, "unknown", "z3+cvc5", total, "z3: %s; cvc5: %s" % (info, info2)
     except Exception as e:  # noqa
         return idx, "error", "z3", 0.0, "%s: %s" % (type(e).__name__, e)
 
@@ -102,25 +116,94 @@ def pool():
     return _POOL
 
 
+_CONST_CACHE = {}
+
+
+def _const_names(f):
+    """names of the uninterpreted constants (arity 0) occurring in f"""
+    k = f.get_id()
+    if k in _CONST_CACHE:
+        return _CONST_CACHE[k]
+    out = set()
+    stack = [f]
+    seen = set()
+    while stack:
+        t = stack.pop()
+        i = t.get_id()
+        if i in seen:
+            continue
+        seen.add(i)
+        if z3.is_quantifier(t):
+            stack.append(t.body())
+        elif z3.is_app(t):
+            if t.num_args() == 0 and t.decl().kind() == z3.Z3_OP_UNINTERPRETED:
+                out.add(t.decl().name())
+            else:
+                stack.extend(t.children())
+    _CONST_CACHE[k] = out
+    return out
+
+
+def slice_hyps(hyps, goal, ghosts):
+    """Sound hypothesis slicing for contracts with many ghost arrays: a hypothesis that talks about ghost arrays, none of which is
+    (transitively) connected to the goal, is dropped.  Proving from fewer hypotheses is still a proof; on `unknown` the caller retries
+    with all hypotheses."""
+    import re
+    pat = re.compile(r"^(?:gh_|h_|post_)(%s)(?:!\d+)?$" % "|".join(re.escape(g) for g in ghosts))
+
+    def fam(f):
+        out = set()
+        for nm in _const_names(f):
+            m = pat.match(nm)
+            if m:
+                out.add(m.group(1))
+        return out
+    rel = fam(goal)
+    fams = [fam(h) for h in hyps]
+    changed = True
+    while changed:
+        changed = False
+        for fs in fams:
+            if fs and (fs & rel) and not fs <= rel:
+                rel |= fs
+                changed = True
+    return [h for h, fs in zip(hyps, fams) if not fs or (fs & rel)]
+
+
 def discharge(obligs, z3_ms=None, use_cvc5=True, parallel=True):
     """obligs: list of engine.Oblig.  Returns list of dict(name, kind, status, backend, time, info)."""
     z3_ms = z3_ms or Z3_TIMEOUT_MS
     jobs = []
+    sliced = set()
     results = [None] * len(obligs)
     for i, o in enumerate(obligs):
         g = z3.simplify(o.goal) if z3.is_bool(o.goal) else o.goal
         if z3.is_true(g) and o.kind != "canary":
             results[i] = dict(name=o.name, kind=o.kind, status="discharged", backend="simplifier", time=0.0, info=None, line=o.line)
             continue
-        jobs.append((i, to_smt2(o.hyps, o.goal), z3_ms, use_cvc5))
+        gh = getattr(o, "ghosts", None)
+        if gh and len(gh) >= 6 and o.kind != "canary":
+            hy = slice_hyps(o.hyps, o.goal, gh)
+            jobs.append((i, to_smt2(hy, o.goal), z3_ms, use_cvc5))
+            sliced.add(i)
+        else:
+            jobs.append((i, to_smt2(o.hyps, o.goal), z3_ms, use_cvc5))
     if jobs:
         if parallel and len(jobs) > 1:
             res = pool().map(_work, jobs, chunksize=1)
         else:
             res = [_work(j) for j in jobs]
+        retry = []
         for idx, st, be, dt, info in res:
             o = obligs[idx]
             results[idx] = dict(name=o.name, kind=o.kind, status=st, backend=be, time=round(dt, 4), info=info, line=o.line)
+            if idx in sliced and st != "discharged":
+                retry.append((idx, to_smt2(o.hyps, o.goal), z3_ms, use_cvc5))   # sliced attempt inconclusive: all hypotheses
+        if retry:
+            res2 = pool().map(_work, retry, chunksize=1) if parallel and len(retry) > 1 else [_work(j) for j in retry]
+            for idx, st, be, dt, info in res2:
+                o = obligs[idx]
+                results[idx] = dict(name=o.name, kind=o.kind, status=st, backend=be, time=round(dt + results[idx]["time"], 4), info=info, line=o.line)
     return results
 
 
